@@ -1275,8 +1275,8 @@ class HGen:
         self.r = rng
         self.pid = pid
         self.small = small
-        self.focus = focus or rng.choice(["field", "unpack", "order", "mixed", "mixed", "effects", "effects"] if pid == "C03"
-                                         else ["order", "order", "effects", "effects", "field", "unpack", "mixed"])
+        self.focus = focus or rng.choice(["field", "unpack", "order", "mixed", "mixed", "effects", "effects", "nested"] if pid == "C03"
+                                         else ["order", "order", "effects", "effects", "field", "unpack", "mixed", "nested"])
         eff = self.focus == "effects"
         # (a) operands that can PANIC (conversions, division, subscripts), (b) reporting user functions NAMED like builtins,
         # (c) reads of mutable state next to borrowing calls that mutate it
@@ -1291,7 +1291,9 @@ class HGen:
         self.helpers = []  # (name, [param types], return type)
         self.feat = {"field_branch": 0, "array_unpack": 0, "starred_unpack": 0, "d9": 0, "for_array": 0, "subscript": 0,
                      "tuple_unpack": 0, "loops": 0, "branches": 0, "calls": 0, "results": 0,
-                     "panic_ops": 0, "shadow_calls": 0, "mut_reads": 0, "effect_shapes": 0}
+                     "panic_ops": 0, "shadow_calls": 0, "mut_reads": 0, "effect_shapes": 0,
+                     "nested_defs": 0, "nested_recursive": 0, "nested_shadow_global": 0, "nested_shadow_other_sig": 0,
+                     "nested_in_nested": 0}
         self.ntag = 0
         self.nloop = 0
         self.protected = set()
@@ -2242,6 +2244,64 @@ class HGen:
         sig = ", ".join(f"{n}: {ty_str(t)}" for n, t in zip(pnames, ptys))
         return f"@guppy\ndef {name}({sig}) -> {ty_str(ret)}:\n" + "".join("    " + l + "\n" for l in body) + "\n"
 
+    def nested_defs(self):
+        """non-capturing nested function definitions at the start of an entry function (C03: 'non-capturing nested
+        functions'): self-recursive and not, with a fresh name or with the NAME OF A MODULE-LEVEL FUNCTION (same or different
+        signature; Python: the local definition shadows the global one, also for the recursive call inside its own body),
+        calling global helpers, reporting their calls, optionally with a recursive function nested one level deeper.
+        Recursion is bounded by the guard `k <= 0 or k > 7`.  -> (lines, helper list to restore afterwards)"""
+        r = self.r
+        saved = list(self.helpers)
+        if r.random() >= (0.9 if self.focus == "nested" else 0.25):
+            return [], saved
+        lines = []
+        int1 = [h for h in saved if h[1] == [INT] and h[2] == INT]
+        other = [h for h in saved if not (h[1] == [INT] and h[2] == INT) and h[0] not in ("ix", "c0", "kk", "k3")]
+        chosen = []
+        for i in range(r.choice([1, 1, 2, 3] if self.focus == "nested" else [1, 1, 2])):
+            q = r.random()
+            if q < 0.55 and int1:
+                name, kind = r.choice(int1)[0], "nested_shadow_global"
+            elif q < 0.7 and other:
+                name, kind = r.choice(other)[0], "nested_shadow_other_sig"
+            else:
+                name, kind = f"nf{i}", None
+            if any(name == c[0] for c in chosen):
+                name, kind = f"nf{i}", None
+            chosen.append((name, kind))
+        taken = {c[0] for c in chosen}
+        for i, (name, kind) in enumerate(chosen):
+            # global helpers a nested body may call: never a name that is (going to be) a local function of this entry
+            # (that would be a captured variable)
+            glob = [h[0] for h in saved if h[1] == [INT] and h[2] == INT and h[0] not in taken]
+            call_g = (lambda a: f"{r.choice(glob)}({a})") if glob else (lambda a: a)  # noqa: E731
+            recursive = r.random() < 0.75
+            rep = r.random() < 0.6
+            body = [f'result("{name}_in_{self.fname}", k)'] if rep else []
+            if recursive:
+                base = r.choice(["0", "1", "k % 3", "-1", call_g("k % 4") if r.random() < 0.5 else "k"])
+                rec = f"{name}({r.choice(['k - 1', 'k - 2', 'k - 1 - k % 2'])})"
+                comb = r.choice(["k + {c}", "k * 2 - {c}", "{c} + 1", "{c} * 2 + k", "{c} - k",
+                                 "(k if {c} % 2 == 0 else 1) + {c}", "{c} + " + call_g("k")]).replace("{c}", rec)
+                if r.random() < 0.25:
+                    comb = f"{rec} + {name}(k - 3)"
+                body += ["if k <= 0 or k > 7:", f"    return {base}", f"return {comb}"]
+                self.feat["nested_recursive"] += 1
+            elif r.random() < 0.35:
+                # a recursive function one level deeper (again named like the outer one's global twin or fresh)
+                inner = r.choice([h[0] for h in int1 if h[0] not in taken] or ["inner"]) if r.random() < 0.5 else "inner"
+                body += [f"def {inner}(j: int) -> int:", "    if j <= 0 or j > 6:", f"        return {r.choice(['0', 'j % 2', '2'])}",
+                         f"    return j + {inner}(j - 1)", f"return {inner}(k % 5) * 2 + {r.choice(['k', '1', call_g('k')])}"]
+                self.feat["nested_in_nested"] += 1
+            else:
+                body += [f"return {r.choice(['k * 3', 'k + 7', '10 - k', call_g('k') + ' + 1', 'k * k - ' + call_g('k + 1')])}"]
+            lines += [f"def {name}(k: int) -> int:"] + ["    " + b for b in body]
+            self.helpers = [h for h in self.helpers if h[0] != name] + [(name, [INT], INT)]
+            self.feat["nested_defs"] += 1
+            if kind:
+                self.feat[kind] += 1
+        return lines, saved
+
     def entry(self, name):
         r = self.r
         f = self.focus
@@ -2294,7 +2354,14 @@ class HGen:
         self.maxd = 2 if self.small else r.choice([2, 3, 3])
         env = {"v": {v: t for v, t, _ in params}, "fixed": {v for v, t, o in params if t[0] == "array" and not o}}
         self.borrowed = set(env["fixed"])  # borrowed array parameters must not be re-assigned (BorrowShadowedError)
+        nested, restore = self.nested_defs()
         body, jumped = self.block(self.maxd, env, False)
+        if nested and not any(f"{h[0]}(" in l for l in body for h in self.helpers if h not in restore):
+            # make sure every nested function is called at least once
+            ints = [v for v, t, _o in params if t == INT] or ["3"]
+            calls = " + ".join(f"{h[0]}({r.choice(ints)})" for h in self.helpers if h not in restore)
+            body = ([f'result("{self.tag()}", {calls})'] if calls else []) + body
+        body = nested + body
         if not jumped:
             if r.random() < 0.4:
                 body += self.st_result(env)
@@ -2303,6 +2370,7 @@ class HGen:
                     self.feat["results"] += 1
                     body.append(f'result("{self.tag()}", {self.poly([f"{a}[{i}]" for i in range(env["v"][a][2])])})')
             body += self.ret_lines(env)
+        self.helpers = restore  # the nested functions are local to this entry
         sig = ", ".join(f"{v}: {ty_str(t)}{' @owned' if o else ''}" for v, t, o in params)
         text = f"@guppy\ndef {name}({sig}) -> {ty_str(ret)}:\n" + "".join("    " + l + "\n" for l in body) + "\n"
         return text, params
@@ -2684,7 +2752,7 @@ def search_hugr_exec(ctx, pid="C03", budget_s=None):
     st, ops = _new_stats(), set()
     st["budget_s"], st["stopped_by_budget"] = budget_s, False
     found = 0
-    for focus in ("effects", "field", "unpack", "order", "mixed") * 50:
+    for focus in ("effects", "nested", "field", "unpack", "order", "mixed") * 50:
         if time.time() - t0 > budget_s or found >= 2:
             break
         found += run_cases(ctx, gen_cases(rng, pid, 12, nargs=4, focus=focus), st, t0 + budget_s, ops, max_reports=2)
